@@ -38,7 +38,7 @@ CONF = {
             "oracle: exact math/big value of inner*current/total rounded half away from zero; one cell of tolerance only when the exact value is within 1e-9 of a half; go-runewidth cell widths (2-column runes: within one rune)",
         ],
         "tiers": tiers(8, 25000, 16, 400000, t_fuzz=[{"target": "FuzzC08", "seconds": 120}]),
-        "require_classes": ["product>=2^64", "wide", "cluster", "refill", "pair", "total<=0", "current>=total", "animated-tip"],
+        "require_classes": ["product>=2^64", "wide", "cluster", "refill", "pair", "total<=0", "current>=total", "animated-tip", "total-changed-between-frames"],
     },
     "C07": {
         "rule": "cases = (mode fill|decor|row, terminal width 0..250, requested width, bar/spinner/nop style over an alphabet with wide, zero-width, multi-rune and empty components, 0-4 decorators with W/C configs and wrapper stacks, int64 counters, 1-4 repeated renders); non-trivial = a component of width != 1, refill>0, requested>available, width<6 or decorators that do not fit; distinct by FNV-64 of the case JSON",
@@ -64,7 +64,7 @@ CONF = {
             "verb b (binary exponent form) is not generated: Go cannot parse it back; speeds are kept <= 1e18 B/s (int64 bytes per second)",
         ],
         "tiers": tiers(8, 12000, 16, 300000, t_fuzz=[{"target": "FuzzC20", "seconds": 90}]),
-        "require_classes": ["kind:size", "kind:pair", "kind:pct", "kind:elapsed", "kind:eta", "kind:avgeta", "kind:speed", "kind:avgspeed", "kind:ewma", "kind:freeze", "current>2^64/100", "value>2^53", "unit-boundary", "duration>=24h", "zero-then-progress", "via-bar", "wrap-depth:4", "twin-moved", "avg:median", "avg:hybrid", "render-between-samples", "age:past-warm-up", "avg:age"],
+        "require_classes": ["kind:size", "kind:pair", "kind:pct", "kind:elapsed", "kind:eta", "kind:avgeta", "kind:speed", "kind:avgspeed", "kind:ewma", "kind:freeze", "current>2^64/100", "value>2^53", "unit-boundary", "duration>=24h", "zero-then-progress", "via-bar", "wrap-depth:4", "twin-moved", "avg:median", "avg:hybrid", "render-between-samples", "age:past-warm-up", "avg:age", "plain-increment-between-samples"],
     },
     "C19": {
         "rule": "cases = (direction, underlying dynamic type: with/without Close x with/without WriteTo/ReadFrom, stream of 0-70000 bytes, bar total unknown/equal/above/below the stream length, 0-3 recording moving-average decorators under 0-3 wrapper layers, a script of up to 12 underlying results (byte limits incl. 0, errors with n>0, EOF with data, delays) and up to 12 consumer calls: Read/Write of generated sizes, io.Copy, io.ReadAll, direct WriteTo/ReadFrom, Close); non-trivial = >=3 transfers of >=2 sizes with an injected error/zero transfer or a fast-path type; distinct by FNV-64 of the case JSON",
@@ -101,7 +101,7 @@ CONF = {
         "rule": "cases = concurrent scenarios with 1-4 client goroutines in 1-2 phases whose operations are ~50% Progress.Write calls with unique newline-terminated payloads (0-40 byte bodies) issued from a buffer that is overwritten after the call returns, racing with render cycles (real ticker, injected ticks, manual), completions, cancel/Shutdown (35%), the final render and Wait; plus 0-3 writes after Wait; non-trivial = >=1 successful write that overlapped a render cycle by event numbers, or a write that lost the race with the done event; distinct by FNV-64 of the scenario JSON",
         "assumptions": GO_ASSUME + SCHED_ASSUME + ["one output Write call = one frame; occurrences are searched in the concatenation of all chunks", "for manual refresh a successful write may stay unflushed when the program requests no further frame (the statement is about containers that refresh themselves)", "hangs are left to C01"],
         "tiers": tiers(8, 1500, 16, 20000),
-        "require_classes": ["refresh:autort", "refresh:autoinj", "refresh:manual", "write-overlaps-render", "write-errdone", "writes>=2", "cancelled", "late-write", "repeated-payload", "unterminated-write", "write-after-delay"],
+        "require_classes": ["refresh:autort", "refresh:autoinj", "refresh:manual", "write-overlaps-render", "write-errdone", "writes>=2", "cancelled", "late-write", "repeated-payload", "unterminated-write", "write-after-delay", "write>32KiB"],
     },
     "C15": {
         "rule": "cases = fault plans: the k-th Fill of one bar, the k-th extender call of one bar, the k-th output Write (error or short write) or the k-th terminal-size query (pty) fails, k in 1..4 (half of the cases, so every site kind x small k is covered many times over) or 1..12; 1-6 bars with 0-2 synchronised decorators per side in every layout, slow decorators and directed holds between width exchange and flush, manual / injected auto / real ticker refresh, n<=q and n>q; non-trivial = the fault fired while >=2 bars carry synchronised decorators; distinct by FNV-64 of the scenario JSON",
@@ -109,7 +109,7 @@ CONF = {
         "level": "fault_enumeration",
         "crash_is_violation": True,
         "tiers": tiers(8, 1500, 16, 20000),
-        "require_classes": ["refresh:manual", "refresh:autoinj", "refresh:autort", "fault:filler", "fault:extender", "fault:output", "fault:termsize", "others-sync", "hold"],
+        "require_classes": ["refresh:manual", "refresh:autoinj", "refresh:autort", "fault:filler", "fault:extender", "fault:output", "fault:termsize", "others-sync", "hold", "two-faults-fired"],
     },
     "C16": {
         "rule": "cases = scenarios drawn from the generators of C01 (concurrent clients, n>q, sync decorators), C15 (render faults at every site), C14 (cancel/Shutdown as a step) and C03 (auto refresh with early refresh, pop, queued bars), each run 1-4 times in a row in one process, followed by a goroutine-dump poll; non-trivial = auto refresh, a fired fault, a cancel or a notifier was involved; distinct by FNV-64 of the scenario JSON",
@@ -128,7 +128,7 @@ CONF = {
         "rule": "cases = sequential programs on auto-refreshing containers (render requests injected by the harness racing with the library's early refresh, or a real 1-3 ms ticker): 1-6 bars with on-complete/on-abort fillers and decorator wrapper stacks, removal on completion, aborts with and without drop, pop mode, queued successors, post-terminal updates, optional cancel/Shutdown; non-trivial = >=2 bars, >=1 completed bar in the last frame and >=1 aborted, removed, popped or replaced bar, and no render-cycle step after the last update (the last frame has to come from early refresh or the final render); distinct by FNV-64 of the scenario JSON",
         "assumptions": GO_ASSUME + SCHED_ASSUME + ["which bars remain is computed from the program by a reference end-state model (first terminal event wins; successor replaces; pop mode pops out; remove-on-complete / abort with drop removes); under cancel/Shutdown only shown rows are judged", "hangs are left to C01 (counted, not judged here)"],
         "tiers": tiers(8, 2500, 16, 40000),
-        "require_classes": ["refresh:autoinj", "refresh:autort", "final:completed", "final:aborted", "final:gone", "pop", "cancelled"],
+        "require_classes": ["refresh:autoinj", "refresh:autort", "final:completed", "final:aborted", "final:gone", "pop", "cancelled", "render-delay"],
     },
     "C12": {
         "rule": "cases = scenarios with 2-8 bars carrying 0-3 synchronised and 0-1 plain decorators per side (minimum widths 0-12, extra-space / right-indent flags, per-call texts of display width 0-16 incl. wide runes, 0-3 wrapper layers), membership changes between frames (late adds, completion with removal, abort with drop, pop mode, queued successors, cancel), manual refresh, injected auto refresh and a real ticker; non-trivial = some cycle has >=2 bars in one sync column, needs differ inside a column, and the set of rendered bars changes between cycles; distinct by FNV-64 of the scenario JSON",
@@ -140,7 +140,7 @@ CONF = {
         "rule": "cases = sequential programs on 1-3 bars that continue after the terminal event: Abort on bars at or below total, bars with total<=0, non-decreasing increments/SetCurrent, SetTotal, EnableTriggerComplete and further Aborts after abort or completion, getters, Bar.Wait, render cycles, cancel/Shutdown anywhere; refresh none, manual, injected auto (bar goroutine survives the terminal event) and a real ticker; non-trivial = >=1 mutator issued after the terminal event and >=1 read after it; distinct by FNV-64 of the scenario JSON",
         "assumptions": GO_ASSUME + SCHED_ASSUME + ["observations are ordered per observer (one client goroutine; frames in output order)", "updates after completion are generated non-decreasing only, as the statement requires", "hangs are left to C01"],
         "tiers": tiers(8, 2500, 16, 60000),
-        "require_classes": ["refresh:none", "refresh:manual", "refresh:autoinj", "refresh:autort", "mutator-after-abort", "mutator-after-complete", "cancelled", "add-after-cancel"],
+        "require_classes": ["refresh:none", "refresh:manual", "refresh:autoinj", "refresh:autort", "mutator-after-abort", "mutator-after-complete", "cancelled", "add-after-cancel", "concurrent-getters"],
     },
     "C04": {
         "rule": "cases = clocked scenarios (manual refresh) on byte buffers and on ptys of 2-8 rows x 40-100 columns: bars added, removed, popped, queued, extended with 1-3 extra rows above or below, text written between frames, render delay, bar counts below/at/above the height; plus non-terminal containers without refresh; every chunk is fed to the VT emulator and the screen+scrollback compared with persisted lines ++ rows of the frame; non-trivial = >=3 frames and (row counts differ, or a frame within one row of the height, or text between frames); distinct by FNV-64 of the scenario JSON",
